@@ -2,6 +2,9 @@ import TflModel.Model.Dykstra
 import TflModel.Lemmas.Idx
 import TflModel.Lemmas.DykstraExec
 import TflModel.Lemmas.Trapezoid
+import TflModel.Lemmas.DykstraConvBox
+import TflModel.Lemmas.DykstraConvStencil
+import Mathlib.Data.List.GetD
 import Mathlib.Tactic.Ring
 import Mathlib.Tactic.Linarith
 /-!
@@ -31,14 +34,45 @@ Proved (for every group list, every iteration count, every kernel):
   every group map is proved in `Lemmas/DykstraExec.lean`, `groups_local`), `projectByDykstraT_twice`.
 * T3 on the executable loop: `dykstraIterT_telescoping`, `projectByDykstraT_telescoping`;
   `projectByDykstraT_agree` ties the table loop to the function-level loop on the box.
-NOT proved (said in DESIGN.md): that the iterates converge (Boyle–Dykstra 1986). The
-"violation → 0" and "limit is the nearest point" clauses are `C08_limit_partial`: tested every run
-against a QP solver, not proved.
+* CONVERGENCE (Boyle–Dykstra 1986), machine-checked:
+  - `Tfl.DykConv.dykstra_converges_on` / `dykstra_converges` (`Lemmas/DykstraConv.lean`): in a
+    finite-dimensional real inner product space, for maps that land in closed sets `C k` with a common
+    point and satisfy the projection's variational inequality, the pass-structured loop (`iterG`, the
+    same `visit`/pass/iterate shape as the model) converges to the point of `⋂ C k` nearest to the start.
+  - `Tfl.DykConv.dykstra_box_converges` (`Lemmas/DykstraConvBox.lean`): the same for the model's loop
+    `dykstraIter` on ℚ-valued kernels, for ANY list of `Local` group maps with feasibility predicates
+    (closed, box-local) for which the map lands and satisfies the box-sum variational inequality.
+  - `Lemmas/DykstraConvStencil.lean`: a group made of disjoint pair / 2×2 stencils along (possibly
+    reversed) axes lands and satisfies the box-sum variational inequality as soon as its stencil map
+    does (`pairGroup_lands/_vi`, `sqGroup_lands/_vi`; `sum_pair_decomp` is the re-indexing).
+  - `mono_dykstra_converges` / `projectByDykstraT_mono_converges`: monotonicity constraints, every
+    rank / sizes / set of monotone dimensions / kernel — the iterates of `project_by_dykstra`'s model
+    converge to the Euclidean-nearest monotone kernel and the largest monotonicity violation tends to 0.
+  - `dykstra_cfg_converges` / `projectByDykstraT_cfg_converges`: EVERY constraint kind except range
+    dominance, in any combination (monotonicity, unimodality, Edgeworth, trapezoid, monotonic dominance,
+    joint monotonicity; `CfgWF`: the trusts / pairs name different dimensions of the lattice): the
+    iterates converge on every vertex to the kernel nearest to the input among the real kernels
+    satisfying all constraints (`FeasibleR`; `feasibleR_of_feasibleD`: every `FeasibleD` rational
+    kernel is one), uniformly on the box. The ties of the tensor-level group maps to the stencil maps
+    (`monoGroup_eq_pairGroup`, `trapezoidGroup_eq_pairGroup`, `edgeworthGroup_eq_sqGroup`,
+    `monoDomGroup_eq_sqGroup`, `jointMonoGroup_eq_sqGroup`) are now proved, and with them `key_lands` /
+    `key_vi`: every such group map IS the Euclidean projection onto its group's constraint set.
+NOT proved: the convergence clause for configurations WITH range dominance. The model's
+`rangeDomGroup` at the two corner vertices `(0, N−1)` and `(M−1, 0)` (where the shared corner enters
+the constraint with weight ±2) moves only the two other entries and keeps the corner fixed: it lands
+on the constraint but is not the Euclidean projection — `rangeDom_corner_not_projection` is a
+machine-checked instance where the variational inequality fails — so the Boyle–Dykstra hypotheses do
+not hold for that group as modelled.
+`C08_limit_partial` (kept below) is the old placeholder statement for arbitrary maps; it does not hold
+in that generality (two copies of `w ↦ 2w` make the iterates diverge) and is superseded by the
+theorems above.
 -/
 namespace Tfl.C08
 open Tfl Tfl.Lat
 
-/-- the part of C08 that is NOT a theorem here: convergence of the iterates to the nearest point -/
+/-- old placeholder for the convergence clause (arbitrary maps, no hypotheses — not provable in this
+generality); the proved statements are `Tfl.DykConv.dykstra_box_converges` and
+`mono_dykstra_converges` / `projectByDykstraT_mono_converges` at the end of this file -/
 def C08_limit_partial : Prop :=
   ∀ (ps : List (W → W)) (w : W), ∃ limit : W, ∀ idx, ∀ ε : ℚ, 0 < ε → ∃ n0 : Nat, ∀ n, n0 ≤ n →
     |(dykstraIter ps n (w, ps.map (fun _ => fun _ => 0))).1 idx - limit idx| < ε
@@ -636,5 +670,1191 @@ example : FeasibleD { sizes := [3], mono := [true] } (fun idx => (coord idx 0 : 
   simp only [List.getD_cons_zero, pairKind, if_true, coord_setc_same _ hl]
   push_cast; linarith
 
+
+open Tfl.DykConv Filter Topology
+
+/-! ### C08 convergence (Boyle–Dykstra) for the monotonicity groups -/
+
+/-- `pairProj_vi` against a REAL feasible pair -/
+theorem pairProj_vi_real (a b : ℚ) (y1 y2 : ℝ) (hy : y1 ≤ y2) :
+    ((a : ℝ) - ((pairProj a b).1 : ℝ)) * (y1 - ((pairProj a b).1 : ℝ))
+      + ((b : ℝ) - ((pairProj a b).2 : ℝ)) * (y2 - ((pairProj a b).2 : ℝ)) ≤ 0 := by
+  by_cases hab : a ≤ b
+  · rw [pairProj_fix a b hab]; simp
+  · have hlt := not_le.mp hab
+    have h1 : min a ((a + b) / 2) = (a + b) / 2 := min_eq_right (by linarith)
+    have h2 : max b ((a + b) / 2) = (a + b) / 2 := max_eq_right (by linarith)
+    have hR : (b : ℝ) < a := by exact_mod_cast hlt
+    simp only [pairProj, h1, h2]
+    push_cast
+    nlinarith [mul_nonneg (show (0:ℝ) ≤ ((a:ℝ) - b) / 2 by linarith) (show (0:ℝ) ≤ y2 - y1 by linarith)]
+
+/-- feasibility of a real kernel for the monotonicity group `(d, g)`: every pair `(k, k+1)` of the
+group along `d` is non-decreasing, on the box -/
+def MonoF (sizes : List Nat) (k : Nat × Nat) (y : Idx → ℝ) : Prop :=
+  ∀ idx, InRange sizes idx → inGroup k.2 (sizes.getD k.1 0) (coord idx k.1) = true →
+    y idx ≤ y (setc idx k.1 (coord idx k.1 + 1))
+
+/-- the group map of key `(d, g)` -/
+def monoMap (sizes : List Nat) (k : Nat × Nat) : W → W := monoGroup (sizes.getD k.1 0) true 0 k.1 k.2
+
+theorem monoMap_lands (sizes : List Nat) (d g : Nat) (hd : d < sizes.length) (w : W) :
+    MonoF sizes (d, g) (fun idx => (monoMap sizes (d, g) w idx : ℝ)) := by
+  intro idx hr hg
+  have hd' : d < idx.length := by rw [hr.1]; exact hd
+  have h := monoGroup_pair (sizes.getD d 0) d g w idx hd' hg
+  have h1 := pairProj_lands (w idx) (w (setc idx d (coord idx d + 1)))
+  simp only at h
+  rw [← h] at h1
+  simp only [monoMap]
+  exact_mod_cast h1
+
+theorem monoF_closed (sizes : List Nat) (k : Nat × Nat) : IsClosed {y : Idx → ℝ | MonoF sizes k y} := by
+  have : {y : Idx → ℝ | MonoF sizes k y} = ⋂ idx, ⋂ (_ : InRange sizes idx),
+      ⋂ (_ : inGroup k.2 (sizes.getD k.1 0) (coord idx k.1) = true),
+        {y : Idx → ℝ | y idx ≤ y (setc idx k.1 (coord idx k.1 + 1))} := by
+    ext y; simp [MonoF]
+  rw [this]
+  refine isClosed_iInter (fun idx => isClosed_iInter (fun _ => isClosed_iInter (fun _ => ?_)))
+  exact isClosed_le (continuous_apply _) (continuous_apply _)
+
+theorem monoF_local (sizes : List Nat) (k : Nat × Nat) (y y' : Idx → ℝ)
+    (h : ∀ idx, InRange sizes idx → y idx = y' idx) (hy : MonoF sizes k y) : MonoF sizes k y' := by
+  intro idx hr hg
+  rw [← h idx hr, ← h _ (inRange_setc hr (inGroup_lt hg))]
+  exact hy idx hr hg
+
+/-- **variational inequality of a whole monotonicity group on the box**: the stencils (pairs) of one
+parity group are disjoint, so the box sum splits into pair sums, each `≤ 0` by `pairProj_vi`. -/
+theorem monoMap_vi (sizes : List Nat) (d g : Nat) (hd : d < sizes.length) (w : W) (y : Idx → ℝ)
+    (hy : MonoF sizes (d, g) y) :
+    bsum sizes (fun idx => ((w idx : ℝ) - (monoMap sizes (d, g) w idx : ℝ))
+      * (y idx - (monoMap sizes (d, g) w idx : ℝ))) ≤ 0 := by
+  set n := sizes.getD d 0 with hn
+  set M := monoMap sizes (d, g) w with hM
+  set t : Idx → ℝ := fun idx => ((w idx : ℝ) - (M idx : ℝ)) * (y idx - (M idx : ℝ)) with ht
+  set B := (allIdx sizes).toFinset with hB
+  have hmemB : ∀ idx, idx ∈ B ↔ InRange sizes idx := fun idx => by simp [hB, mem_allIdx]
+  -- index facts
+  have up_facts : ∀ idx, InRange sizes idx → inGroup g n (coord idx d) = true →
+      InRange sizes (setc idx d (coord idx d + 1)) ∧
+      coord (setc idx d (coord idx d + 1)) d = coord idx d + 1 ∧
+      setc (setc idx d (coord idx d + 1)) d (coord idx d) = idx := by
+    intro idx hr hg
+    have hl : d < idx.length := by rw [hr.1]; exact hd
+    exact ⟨inRange_setc hr (inGroup_lt hg), coord_setc_same _ hl,
+      by rw [setc_setc_same]; exact setc_coord_self hl⟩
+  have dn_facts : ∀ idx, InRange sizes idx → 1 ≤ coord idx d →
+      inGroup g n (coord idx d - 1) = true →
+      InRange sizes (setc idx d (coord idx d - 1)) ∧
+      coord (setc idx d (coord idx d - 1)) d = coord idx d - 1 ∧
+      setc (setc idx d (coord idx d - 1)) d (coord idx d - 1 + 1) = idx := by
+    intro idx hr h1 hg
+    have hl : d < idx.length := by rw [hr.1]; exact hd
+    have := hr.2 d hd
+    refine ⟨inRange_setc hr (by omega), coord_setc_same _ hl, ?_⟩
+    rw [setc_setc_same, show coord idx d - 1 + 1 = coord idx d by omega]
+    exact setc_coord_self hl
+  have excl : ∀ k, inGroup g n k = true → ¬ (1 ≤ k ∧ inGroup g n (k - 1) = true) := by
+    intro k h1 h2
+    simp only [inGroup, Bool.and_eq_true, decide_eq_true_eq, beq_iff_eq] at h1 h2
+    omega
+  -- split the sum: lower elements, upper elements, untouched
+  have hsplit : ∀ idx ∈ B, t idx
+      = (if inGroup g n (coord idx d) = true then t idx else 0)
+        + (if 1 ≤ coord idx d ∧ inGroup g n (coord idx d - 1) = true then t idx else 0) := by
+    intro idx _
+    by_cases h1 : inGroup g n (coord idx d) = true
+    · rw [if_pos h1, if_neg (excl _ h1), add_zero]
+    · by_cases h2 : 1 ≤ coord idx d ∧ inGroup g n (coord idx d - 1) = true
+      · rw [if_neg h1, if_pos h2, zero_add]
+      · rw [if_neg h1, if_neg h2, add_zero]
+        have : M idx = w idx := by
+          simp only [hM, monoMap, monoGroup, ← hn, h1, h2]
+          simp
+        simp only [ht, this, sub_self, zero_mul]
+  rw [bsum_eq_finset, Finset.sum_congr rfl hsplit, Finset.sum_add_distrib, ← Finset.sum_filter,
+    ← Finset.sum_filter]
+  -- move the upper elements down
+  have hmove : ∑ idx ∈ B.filter (fun idx => 1 ≤ coord idx d ∧ inGroup g n (coord idx d - 1) = true), t idx
+      = ∑ idx ∈ B.filter (fun idx => inGroup g n (coord idx d) = true),
+          t (setc idx d (coord idx d + 1)) := by
+    refine Finset.sum_nbij' (fun idx => setc idx d (coord idx d - 1))
+      (fun idx => setc idx d (coord idx d + 1)) ?_ ?_ ?_ ?_ ?_
+    · intro idx hi
+      obtain ⟨hb, h1, h2⟩ := Finset.mem_filter.mp hi
+      obtain ⟨f1, f2, _⟩ := dn_facts idx ((hmemB idx).mp hb) h1 h2
+      exact Finset.mem_filter.mpr ⟨(hmemB _).mpr f1, by rw [f2]; exact h2⟩
+    · intro idx hi
+      obtain ⟨hb, h1⟩ := Finset.mem_filter.mp hi
+      obtain ⟨f1, f2, _⟩ := up_facts idx ((hmemB idx).mp hb) h1
+      exact Finset.mem_filter.mpr ⟨(hmemB _).mpr f1, by rw [f2]; exact ⟨by omega, by simpa using h1⟩⟩
+    · intro idx hi
+      obtain ⟨hb, h1, h2⟩ := Finset.mem_filter.mp hi
+      obtain ⟨_, f2, f3⟩ := dn_facts idx ((hmemB idx).mp hb) h1 h2
+      simp only [f2, f3]
+    · intro idx hi
+      obtain ⟨hb, h1⟩ := Finset.mem_filter.mp hi
+      obtain ⟨_, f2, f3⟩ := up_facts idx ((hmemB idx).mp hb) h1
+      simp only [f2, Nat.add_sub_cancel, f3]
+    · intro idx hi
+      obtain ⟨hb, h1, h2⟩ := Finset.mem_filter.mp hi
+      obtain ⟨_, f2, f3⟩ := dn_facts idx ((hmemB idx).mp hb) h1 h2
+      simp only [f2, f3]
+  rw [hmove, ← Finset.sum_add_distrib]
+  refine Finset.sum_nonpos (fun idx hi => ?_)
+  obtain ⟨hb, h1⟩ := Finset.mem_filter.mp hi
+  have hr := (hmemB idx).mp hb
+  have hl : d < idx.length := by rw [hr.1]; exact hd
+  have hp := monoGroup_pair n d g w idx hl h1
+  simp only at hp
+  have hv := pairProj_vi_real (w idx) (w (setc idx d (coord idx d + 1))) (y idx)
+    (y (setc idx d (coord idx d + 1))) (hy idx hr h1)
+  rw [← hp] at hv
+  exact hv
+
+/-- configuration with only monotonicity flags: any rank, any sizes, any set of monotone dimensions -/
+def monoCfg (sizes : List Nat) (mono : List Bool) : DCfg := { sizes := sizes, mono := mono }
+
+/-- the group keys `(dimension, parity)` in the order `project_by_dykstra` visits them -/
+def monoKeys (sizes : List Nat) (mono : List Bool) : List (Nat × Nat) :=
+  (List.range sizes.length).flatMap (fun d =>
+    if mono.getD d false then ([0, 1].filter (fun g => g + 1 < sizes.getD d 0)).map (fun g => (d, g))
+    else [])
+
+theorem groups_monoCfg (sizes : List Nat) (mono : List Bool) :
+    groups (monoCfg sizes mono) = (monoKeys sizes mono).map (monoMap sizes) := by
+  simp only [groups, monoCfg, monoKeys, sz, List.flatMap_nil, List.append_nil, List.map_flatMap]
+  refine List.flatMap_congr (fun d _ => ?_)
+  rcases Bool.eq_false_or_eq_true (mono.getD d false) with hm | hm
+  · simp only [hm]; simp [monoMap]
+  · simp only [hm]; simp
+
+theorem mem_monoKeys {sizes : List Nat} {mono : List Bool} {k : Nat × Nat} :
+    k ∈ monoKeys sizes mono ↔
+      k.1 < sizes.length ∧ mono.getD k.1 false = true ∧ k.2 < 2 ∧ k.2 + 1 < sizes.getD k.1 0 := by
+  obtain ⟨d, g⟩ := k
+  simp only [monoKeys, List.mem_flatMap, List.mem_range]
+  constructor
+  · rintro ⟨d', hd', h⟩
+    split_ifs at h with hm
+    · simp only [List.mem_map, List.mem_filter, decide_eq_true_eq] at h
+      obtain ⟨g', ⟨hg1, hg2⟩, he⟩ := h
+      cases he
+      refine ⟨hd', hm, ?_, hg2⟩
+      simp at hg1; omega
+    · cases h
+  · rintro ⟨h1, h2, h3, h4⟩
+    refine ⟨d, h1, ?_⟩
+    rw [if_pos h2]
+    simp only [List.mem_map, List.mem_filter, decide_eq_true_eq]
+    refine ⟨g, ⟨?_, h4⟩, rfl⟩
+    have : g = 0 ∨ g = 1 := by omega
+    rcases this with rfl | rfl <;> simp
+
+/-- a real kernel that is non-decreasing, on the box, along every monotone dimension -/
+def MonoR (sizes : List Nat) (mono : List Bool) (y : Idx → ℝ) : Prop :=
+  ∀ d, d < sizes.length → mono.getD d false = true → ∀ idx, InRange sizes idx →
+    coord idx d + 1 < sizes.getD d 0 → y idx ≤ y (setc idx d (coord idx d + 1))
+
+/-- feasible for both parity groups of every monotone dimension ⇔ monotone -/
+theorem monoF_all_iff (sizes : List Nat) (mono : List Bool) (y : Idx → ℝ) :
+    (∀ k ∈ monoKeys sizes mono, MonoF sizes k y) ↔ MonoR sizes mono y := by
+  constructor
+  · intro h d hd hm idx hr hlt
+    have hk : (d, coord idx d % 2) ∈ monoKeys sizes mono := by
+      rw [mem_monoKeys]
+      refine ⟨hd, hm, Nat.mod_lt _ (by norm_num), ?_⟩
+      have := Nat.mod_le (coord idx d) 2
+      simp only; omega
+    refine h _ hk idx hr ?_
+    simp only [inGroup, Bool.and_eq_true, decide_eq_true_eq, beq_iff_eq]
+    have := Nat.mod_le (coord idx d) 2
+    omega
+  · intro h k hk idx hr hg
+    obtain ⟨h1, h2, _, _⟩ := mem_monoKeys.mp hk
+    exact h k.1 h1 h2 idx hr (inGroup_lt hg)
+
+theorem le_bsum {sizes : List Nat} {f : Idx → ℝ} (hf : ∀ idx, 0 ≤ f idx) {idx : Idx}
+    (hr : InRange sizes idx) : f idx ≤ bsum sizes f := by
+  unfold bsum
+  refine List.single_le_sum (fun x hx => ?_) _ (List.mem_map.mpr ⟨idx, mem_allIdx.mpr hr, rfl⟩)
+  obtain ⟨i, _, rfl⟩ := List.mem_map.mp hx
+  exact hf i
+
+/-- **C08, convergence clause, monotonicity constraints (Boyle–Dykstra 1986, machine-checked).**
+For every rank, every lattice sizes, every set of monotone dimensions and every kernel `w`, the
+model of `project_by_dykstra` (the loop `dykstraIter` over the real group schedule `groups`) converges,
+vertex by vertex, to a kernel `p` that is monotone along every monotone dimension and is the
+Euclidean-nearest such kernel to `w` (with the Pythagoras gap, so it is the unique nearest one);
+the sum of squared distances to `p` tends to 0 and the largest monotonicity violation of the
+iterate tends to 0. -/
+theorem mono_dykstra_converges (sizes : List Nat) (mono : List Bool) (w : W) :
+    ∃ p : Idx → ℝ, MonoR sizes mono p ∧
+      (∀ y : Idx → ℝ, MonoR sizes mono y →
+        bsum sizes (fun idx => ((w idx : ℝ) - p idx) ^ 2) + bsum sizes (fun idx => (p idx - y idx) ^ 2)
+          ≤ bsum sizes (fun idx => ((w idx : ℝ) - y idx) ^ 2)) ∧
+      (∀ idx, InRange sizes idx → Tendsto (fun n =>
+        (((dykstraIter (groups (monoCfg sizes mono)) n
+          (w, (groups (monoCfg sizes mono)).map (fun _ => fun _ => 0))).1 idx : ℚ) : ℝ))
+          atTop (𝓝 (p idx))) ∧
+      Tendsto (fun n => bsum sizes (fun idx =>
+        ((((dykstraIter (groups (monoCfg sizes mono)) n
+          (w, (groups (monoCfg sizes mono)).map (fun _ => fun _ => 0))).1 idx : ℚ) : ℝ) - p idx) ^ 2))
+          atTop (𝓝 0) ∧
+      (∀ ε : ℚ, 0 < ε → ∃ n0 : Nat, ∀ n, n0 ≤ n → ∀ d, d < sizes.length → mono.getD d false = true →
+        ∀ idx, InRange sizes idx → coord idx d + 1 < sizes.getD d 0 →
+          (dykstraIter (groups (monoCfg sizes mono)) n
+            (w, (groups (monoCfg sizes mono)).map (fun _ => fun _ => 0))).1 idx
+          - (dykstraIter (groups (monoCfg sizes mono)) n
+            (w, (groups (monoCfg sizes mono)).map (fun _ => fun _ => 0))).1 (setc idx d (coord idx d + 1))
+            < ε) := by
+  rw [groups_monoCfg]
+  have hk : ∀ k ∈ monoKeys sizes mono, k.1 < sizes.length := fun k hk => (mem_monoKeys.mp hk).1
+  obtain ⟨p, hpF, hnear, hlim, hsq⟩ := dykstra_box_converges sizes (monoKeys sizes mono) (monoMap sizes)
+    (MonoF sizes)
+    (fun k _ => monoGroup_local sizes true 0 k.1 k.2)
+    (fun k _ => monoF_local sizes k)
+    (fun k _ => monoF_closed sizes k)
+    (fun k hk' w => monoMap_lands sizes k.1 k.2 (hk k hk') w)
+    (fun k hk' w y hy => monoMap_vi sizes k.1 k.2 (hk k hk') w y hy)
+    ⟨fun _ => 0, fun k _ idx _ _ => le_rfl⟩ w
+  have hpM : MonoR sizes mono p := (monoF_all_iff sizes mono p).mp hpF
+  refine ⟨p, hpM, fun y hy => hnear y ((monoF_all_iff sizes mono y).mpr hy), hlim, hsq, ?_⟩
+  intro ε hε
+  have hε' : (0 : ℝ) < ((ε : ℝ) / 2) ^ 2 := by positivity
+  obtain ⟨n0, hn0⟩ := (Filter.eventually_atTop.mp ((tendsto_order.mp hsq).2 _ hε'))
+  refine ⟨n0, fun n hn d hd hm idx hr hlt => ?_⟩
+  have hb := hn0 n hn
+  set wn := (dykstraIter ((monoKeys sizes mono).map (monoMap sizes)) n
+    (w, ((monoKeys sizes mono).map (monoMap sizes)).map (fun _ => fun _ => 0))).1 with hwn
+  have hr' : InRange sizes (setc idx d (coord idx d + 1)) := inRange_setc hr hlt
+  have hclose : ∀ i, InRange sizes i → |(wn i : ℝ) - p i| < (ε : ℝ) / 2 := by
+    intro i hi
+    have h1 := le_bsum (sizes := sizes) (f := fun idx => ((wn idx : ℝ) - p idx) ^ 2)
+      (fun _ => sq_nonneg _) hi
+    have h2 : ((wn i : ℝ) - p i) ^ 2 < ((ε : ℝ) / 2) ^ 2 := lt_of_le_of_lt h1 hb
+    have h3 : (0 : ℝ) ≤ (ε : ℝ) / 2 := by positivity
+    exact abs_lt_of_sq_lt_sq h2 h3
+  have h1 := abs_lt.mp (hclose idx hr)
+  have h2 := abs_lt.mp (hclose _ hr')
+  have h3 := hpM d hd hm idx hr hlt
+  have : ((wn idx - wn (setc idx d (coord idx d + 1)) : ℚ) : ℝ) < (ε : ℝ) := by
+    push_cast; linarith [h1.2, h2.1]
+  exact_mod_cast this
+
+/-! ### the same for the executable `project_by_dykstra` (tables) -/
+
+theorem dykstraIter_nil (n : Nat) (w : W) : dykstraIter [] n (w, []) = (w, []) := by
+  induction n with
+  | zero => rfl
+  | succ n ih => simpa [dykstraIter, dykstraPass] using ih
+
+/-- for a monotonicity-only configuration the executable `project_by_dykstra` (early returns
+included) computes, on the box, the function-level loop — for EVERY iteration count -/
+theorem projectByDykstraT_monoCfg_agree (sizes : List Nat) (mono : List Bool) (n : Nat) (t : Table) :
+    AgreeOn sizes (projectByDykstraT (monoCfg sizes mono) n t).get
+      (dykstraIter (groups (monoCfg sizes mono)) n
+        (t.get, (groups (monoCfg sizes mono)).map (fun _ => fun _ => 0))).1 := by
+  unfold projectByDykstraT
+  split_ifs with h
+  · simp only [Bool.or_eq_true, decide_eq_true_eq, Bool.not_eq_true'] at h
+    rcases h with h | h
+    · subst h; exact AgreeOn.refl _ _
+    · have hk : monoKeys sizes mono = [] := by
+        rw [List.eq_nil_iff_forall_not_mem]
+        intro k hk
+        obtain ⟨_, h2, _, _⟩ := mem_monoKeys.mp hk
+        have hany : mono.any id = false := by
+          simpa [dykstraActive, monoCfg] using h
+        have hlt : k.1 < mono.length := by
+          by_contra hge
+          rw [List.getD_eq_default _ _ (by omega)] at h2
+          cases h2
+        rw [List.getD_eq_getElem _ _ hlt] at h2
+        have := List.any_eq_false.mp hany _ (List.getElem_mem hlt)
+        simp [h2] at this
+      rw [groups_monoCfg, hk]
+      simp only [List.map_nil, dykstraIter_nil]
+      exact AgreeOn.refl _ _
+  · exact projectByDykstraT_agree (monoCfg sizes mono) n t
+
+/-- **C08, convergence clause on the executable model.** `project_by_dykstra` with `n` iterations
+on a table, monotonicity constraints: as `n → ∞` every entry converges to the entry of the
+Euclidean-nearest monotone kernel `p`, and the largest monotonicity violation tends to 0. -/
+theorem projectByDykstraT_mono_converges (sizes : List Nat) (mono : List Bool) (t : Table) :
+    ∃ p : Idx → ℝ, MonoR sizes mono p ∧
+      (∀ y : Idx → ℝ, MonoR sizes mono y →
+        bsum sizes (fun idx => ((t.get idx : ℝ) - p idx) ^ 2) + bsum sizes (fun idx => (p idx - y idx) ^ 2)
+          ≤ bsum sizes (fun idx => ((t.get idx : ℝ) - y idx) ^ 2)) ∧
+      (∀ idx, InRange sizes idx → Tendsto (fun n =>
+        (((projectByDykstraT (monoCfg sizes mono) n t).get idx : ℚ) : ℝ)) atTop (𝓝 (p idx))) ∧
+      (∀ ε : ℚ, 0 < ε → ∃ n0 : Nat, ∀ n, n0 ≤ n → ∀ d, d < sizes.length → mono.getD d false = true →
+        ∀ idx, InRange sizes idx → coord idx d + 1 < sizes.getD d 0 →
+          (projectByDykstraT (monoCfg sizes mono) n t).get idx
+            - (projectByDykstraT (monoCfg sizes mono) n t).get (setc idx d (coord idx d + 1)) < ε) := by
+  obtain ⟨p, hpM, hnear, hlim, -, hviol⟩ := mono_dykstra_converges sizes mono t.get
+  refine ⟨p, hpM, hnear, fun idx hr => ?_, fun ε hε => ?_⟩
+  · refine (hlim idx hr).congr (fun n => ?_)
+    rw [projectByDykstraT_monoCfg_agree sizes mono n t idx hr]
+  · obtain ⟨n0, h⟩ := hviol ε hε
+    refine ⟨n0, fun n hn d hd hm idx hr hlt => ?_⟩
+    rw [projectByDykstraT_monoCfg_agree sizes mono n t idx hr,
+      projectByDykstraT_monoCfg_agree sizes mono n t _ (inRange_setc hr hlt)]
+    exact h n hn d hd hm idx hr hlt
+
+/-! ### non-vacuity: the 2-point kernel `(3, 1)` with a monotone dimension converges to `(2, 2)` -/
+
+/-- the kernel `(3, 1)` on the lattice `[2]` -/
+def wEx31 : W := fun idx => if idx = [0] then 3 else 1
+
+example : Tendsto (fun n =>
+    (((dykstraIter (groups (monoCfg [2] [true])) n
+      (wEx31, (groups (monoCfg [2] [true])).map (fun _ => fun _ => 0))).1 [0] : ℚ) : ℝ))
+    atTop (𝓝 2) := by
+  obtain ⟨p, hpM, hnear, hlim, -⟩ := mono_dykstra_converges [2] [true] wEx31
+  have hr0 : InRange [2] [0] := mem_allIdx.mp (by decide)
+  have hmono : p [0] ≤ p [1] := by
+    have := hpM 0 (by simp) (by simp) [0] hr0 (by simp [coord])
+    simpa [setc, coord] using this
+  have h2 := hnear (fun _ => 2) (fun _ _ _ _ _ _ => le_rfl)
+  have e1 : ((wEx31 [0] : ℚ) : ℝ) = 3 := by simp [wEx31]
+  have e2 : ((wEx31 [1] : ℚ) : ℝ) = 1 := by simp [wEx31]
+  simp only [bsum, allIdx, List.range, List.range.loop, List.flatMap_cons, List.flatMap_nil,
+    List.map_cons, List.map_nil, List.append_nil, List.cons_append, List.nil_append,
+    List.sum_cons, List.sum_nil, e1, e2] at h2
+  have h3 : (p [0] - 2) ^ 2 ≤ 0 := by nlinarith [sq_nonneg (p [1] - 2)]
+  have h4 : p [0] = 2 := by
+    have := pow_eq_zero_iff (two_ne_zero) |>.mp (le_antisymm h3 (sq_nonneg _))
+    linarith
+  have := hlim [0] hr0
+  rwa [h4] at this
+
+
+/-! ### all pair kinds (monotonicity, unimodality, trapezoid) -/
+
+/-- the pair map of `_project_partial_monotonicity` / `_project_partial_trapezoid` by direction -/
+def pairK : PairKind → ℚ → ℚ → ℚ × ℚ
+  | .incr, a, b => (min a ((a + b) / 2), max b ((a + b) / 2))
+  | .decr, a, b => (max a ((a + b) / 2), min b ((a + b) / 2))
+  | .none, a, b => (a, b)
+
+/-- the constraint a pair of the given direction must satisfy -/
+def QK : PairKind → ℝ → ℝ → Prop
+  | .incr, y1, y2 => y1 ≤ y2
+  | .decr, y1, y2 => y2 ≤ y1
+  | .none, _, _ => True
+
+theorem pairK_lands (k : PairKind) (a b : ℚ) : QK k ((pairK k a b).1 : ℝ) ((pairK k a b).2 : ℝ) := by
+  cases k
+  · have : min a ((a + b) / 2) ≤ max b ((a + b) / 2) := (min_le_right _ _).trans (le_max_right _ _)
+    simp only [QK, pairK]; exact_mod_cast this
+  · have : min b ((a + b) / 2) ≤ max a ((a + b) / 2) := (min_le_right _ _).trans (le_max_right _ _)
+    simp only [QK, pairK]; exact_mod_cast this
+  · trivial
+
+theorem pairK_vi (k : PairKind) (a b : ℚ) (y1 y2 : ℝ) (h : QK k y1 y2) :
+    ((a : ℝ) - ((pairK k a b).1 : ℝ)) * (y1 - ((pairK k a b).1 : ℝ))
+      + ((b : ℝ) - ((pairK k a b).2 : ℝ)) * (y2 - ((pairK k a b).2 : ℝ)) ≤ 0 := by
+  cases k
+  · exact pairProj_vi_real a b y1 y2 h
+  · simp only [QK] at h
+    simp only [pairK]
+    by_cases hab : b ≤ a
+    · rw [max_eq_left (by linarith), min_eq_left (by linarith)]; simp
+    · have hlt := not_le.mp hab
+      have hR : (a : ℝ) < b := by exact_mod_cast hlt
+      rw [max_eq_right (by linarith), min_eq_right (by linarith)]
+      push_cast
+      nlinarith [mul_nonneg (show (0:ℝ) ≤ ((b:ℝ) - a) / 2 by linarith) (show (0:ℝ) ≤ y1 - y2 by linarith)]
+  · simp [pairK]
+
+theorem QK_closed (k : PairKind) : IsClosed {p : ℝ × ℝ | QK k p.1 p.2} := by
+  cases k
+  · exact isClosed_le continuous_fst continuous_snd
+  · exact isClosed_le continuous_snd continuous_fst
+  · simp [QK]
+
+/-- `monoGroup` (any monotonicity / unimodality flags) is the pair-stencil group map of `pairK` -/
+theorem monoGroup_eq_pairGroup (sizes : List Nat) (mono : Bool) (unimod : Int) (d g : Nat)
+    (hd : d < sizes.length) (w : W) :
+    AgreeOn sizes (monoGroup (sizes.getD d 0) mono unimod d g w)
+      (pairGroup (coordAxis sizes d) g
+        (fun idx => pairK (pairKind mono unimod (sizes.getD d 0) (coord idx d))) w) := by
+  intro idx hr
+  have hl : d < idx.length := by rw [hr.1]; exact hd
+  have hn : (coordAxis sizes d).n = sizes.getD d 0 := rfl
+  simp only [monoGroup, pairGroup, Axis.lower, Axis.upper, Axis.up, Axis.dn, coordAxis_get,
+    coordAxis_set, hn]
+  split_ifs with h1 h2
+  · cases pairKind mono unimod (sizes.getD d 0) (coord idx d) <;> rfl
+  · rw [coord_setc_same _ hl]
+    cases pairKind mono unimod (sizes.getD d 0) (coord idx d - 1) <;> rfl
+  · rfl
+
+/-- the direction `_project_partial_trapezoid` enforces on the pairs of the layer `a` of the main
+dimension (size `M`): first layer decreasing, last layer increasing (in list order) -/
+def trapKind (M a : Nat) : PairKind := if a = 0 then .decr else if a = M - 1 then .incr else .none
+
+theorem max_avg_left (a b : ℚ) : a + max ((b - a) / 2) 0 = max a ((a + b) / 2) := by
+  simp only [max_def]; split_ifs <;> linarith
+theorem min_avg_right (a b : ℚ) : b - max ((b - a) / 2) 0 = min b ((a + b) / 2) := by
+  simp only [max_def, min_def]; split_ifs <;> linarith
+theorem min_avg_left (a b : ℚ) : a - max ((a - b) / 2) 0 = min a ((a + b) / 2) := by
+  simp only [max_def, min_def]; split_ifs <;> linarith
+theorem max_avg_right (a b : ℚ) : b + max ((a - b) / 2) 0 = max b ((a + b) / 2) := by
+  simp only [max_def]; split_ifs <;> linarith
+
+/-- `trapezoidGroup` is the pair-stencil group map of `pairK` along the (possibly reversed)
+conditional dimension, the direction given by the main coordinate -/
+theorem trapezoidGroup_eq_pairGroup (sizes : List Nat) (tr : Trust) (g : Nat) (hwf : TrustWF sizes tr)
+    (w : W) :
+    AgreeOn sizes (trapezoidGroup (sizes.getD tr.main 0) (sizes.getD tr.cond 0) tr g w)
+      (pairGroup (revAxis sizes tr.cond tr.pos) g
+        (fun idx => pairK (trapKind (sizes.getD tr.main 0) (coord idx tr.main))) w) := by
+  obtain ⟨hm, hc, hne⟩ := hwf
+  have hA := revAxis_laws sizes tr.cond tr.pos hc
+  intro idx hr
+  have hlm : tr.main < idx.length := by rw [hr.1]; exact hm
+  have hn : (revAxis sizes tr.cond tr.pos).n = sizes.getD tr.cond 0 := rfl
+  have hget : (revAxis sizes tr.cond tr.pos).get idx
+      = rev (sizes.getD tr.cond 0) tr.pos (coord idx tr.cond) := rfl
+  -- reading the grid at the own main coordinate
+  have hL : ∀ y, gat w tr.main tr.cond (coord idx tr.main) (rev (sizes.getD tr.cond 0) tr.pos y) idx
+      = w ((revAxis sizes tr.cond tr.pos).set idx y) := by
+    intro y; simp only [gat, revAxis, setc_coord_self hlm]
+  have hself : w ((revAxis sizes tr.cond tr.pos).set idx ((revAxis sizes tr.cond tr.pos).get idx)) = w idx := by
+    rw [hA.set_get hr]
+  set A := revAxis sizes tr.cond tr.pos with hAdef
+  simp only [trapezoidGroup, pairGroup]
+  by_cases h1 : A.lower g idx
+  · have sb := stencilBase_lower h1
+    rw [hn] at sb
+    rw [if_pos h1, ← hget, sb]
+    simp only [trapKind]
+    have hup : A.up idx = A.set idx (A.get idx + 1) := rfl
+    split_ifs with ha0 haM
+    · have := hL; rw [ha0] at this
+      simp only [this, hself, pairK, ← hup]
+      exact max_avg_left _ _
+    · have := hL; rw [haM] at this
+      simp only [this, hself, pairK, ← hup]
+      exact min_avg_left _ _
+    · rfl
+  · by_cases h2 : A.upper g idx
+    · have sb := stencilBase_upper h2 h1
+      rw [hn] at sb
+      rw [if_neg h1, if_pos h2, ← hget, sb]
+      obtain ⟨_, gdn, _, updn⟩ := Axis.dn_facts hA hr h2
+      have hcm : coord (A.dn idx) tr.main = coord idx tr.main := by
+        simp only [Axis.dn, hAdef, revAxis]; exact coord_setc_ne _ (Ne.symm hne)
+      have hdn : A.dn idx = A.set idx (A.get idx - 1) := rfl
+      have h11 : A.get idx - 1 + 1 = A.get idx := Nat.sub_add_cancel h2.1
+      have hne' : A.get idx ≠ A.get idx - 1 := by have := h2.1; omega
+      simp only [trapKind, hcm]
+      split_ifs with ha0 haM
+      · have := hL; rw [ha0] at this
+        simp only [this, h11, hself, pairK, ← hdn]
+        exact min_avg_right _ _
+      · have := hL; rw [haM] at this
+        simp only [this, h11, hself, pairK, ← hdn]
+        exact max_avg_right _ _
+      · rfl
+    · have sb := stencilBase_neither h1 h2
+      rw [hn] at sb
+      rw [if_neg h1, if_neg h2, ← hget, sb]
+
+/-! ### 2×2 stencils (Edgeworth, monotonic dominance, joint monotonicity) -/
+
+theorem sqProj_vi_real (p q r s : ℚ) (y1 y2 y3 y4 : ℝ) (hy : (y3 - y1) - (y4 - y2) ≤ 0) :
+    ((p : ℝ) - ((sqProj p q r s).1 : ℝ)) * (y1 - ((sqProj p q r s).1 : ℝ))
+      + ((q : ℝ) - ((sqProj p q r s).2.1 : ℝ)) * (y2 - ((sqProj p q r s).2.1 : ℝ))
+      + ((r : ℝ) - ((sqProj p q r s).2.2.1 : ℝ)) * (y3 - ((sqProj p q r s).2.2.1 : ℝ))
+      + ((s : ℝ) - ((sqProj p q r s).2.2.2 : ℝ)) * (y4 - ((sqProj p q r s).2.2.2 : ℝ)) ≤ 0 := by
+  simp only [sqProj, max_def]
+  split_ifs with h
+  · push_cast; nlinarith
+  · have hR : (0 : ℝ) ≤ (((r : ℝ) - p) - (s - q)) / 4 := by
+      have := le_of_lt (not_le.mp h); exact_mod_cast this
+    push_cast
+    nlinarith [mul_nonneg hR (show (0:ℝ) ≤ -((y3 - y1) - (y4 - y2)) by linarith)]
+
+theorem triUp_vi_real (a b m : ℚ) (y1 y2 y3 : ℝ) (hy : (y1 + y2) / 2 ≤ y3) :
+    ((a : ℝ) - ((triUp a b m).1 : ℝ)) * (y1 - ((triUp a b m).1 : ℝ))
+      + ((b : ℝ) - ((triUp a b m).2.1 : ℝ)) * (y2 - ((triUp a b m).2.1 : ℝ))
+      + ((m : ℝ) - ((triUp a b m).2.2 : ℝ)) * (y3 - ((triUp a b m).2.2 : ℝ)) ≤ 0 := by
+  simp only [triUp, max_def]
+  split_ifs with h
+  · push_cast; nlinarith
+  · have hR : (0 : ℝ) ≤ (((a : ℝ) + b) / 2 - m) / 3 := by
+      have := le_of_lt (not_le.mp h); exact_mod_cast this
+    push_cast
+    nlinarith [mul_nonneg hR (show (0:ℝ) ≤ -((y1 + y2) / 2 - y3) by linarith)]
+
+theorem triDown_vi_real (a b m : ℚ) (y1 y2 y3 : ℝ) (hy : y3 ≤ (y1 + y2) / 2) :
+    ((a : ℝ) - ((triDown a b m).1 : ℝ)) * (y1 - ((triDown a b m).1 : ℝ))
+      + ((b : ℝ) - ((triDown a b m).2.1 : ℝ)) * (y2 - ((triDown a b m).2.1 : ℝ))
+      + ((m : ℝ) - ((triDown a b m).2.2 : ℝ)) * (y3 - ((triDown a b m).2.2 : ℝ)) ≤ 0 := by
+  simp only [triDown, min_def]
+  split_ifs with h
+  · have hR : (0 : ℝ) ≤ -((((a : ℝ) + b) / 2 - m) / 3) := by
+      have : 0 ≤ -(((a + b) / 2 - m) / 3) := by linarith
+      exact_mod_cast this
+    push_cast
+    nlinarith [mul_nonneg hR (show (0:ℝ) ≤ (y1 + y2) / 2 - y3 by linarith)]
+  · push_cast; nlinarith
+
+/-- the grid of a trust, as a pair of axes: main coordinate, (possibly reversed) conditional one -/
+theorem self_read {sizes : List Nat} {A1 A2 : Axis sizes} (hA1 : A1.Laws) (hA2 : A2.Laws) (w : W)
+    {idx : Idx} (hr : InRange sizes idx) : w (A2.set (A1.set idx (A1.get idx)) (A2.get idx)) = w idx := by
+  rw [hA1.set_get hr, hA2.set_get hr]
+
+/-- `edgeworthGroup` is the 2×2-stencil group map of `sqProj` -/
+theorem edgeworthGroup_eq_sqGroup (sizes : List Nat) (tr : Trust) (g0 g1 : Nat) (hwf : TrustWF sizes tr)
+    (w : W) :
+    AgreeOn sizes (edgeworthGroup (sizes.getD tr.main 0) (sizes.getD tr.cond 0) tr g0 g1 w)
+      (sqGroup (coordAxis sizes tr.main) (revAxis sizes tr.cond tr.pos) g0 g1 sqProj w) := by
+  obtain ⟨hm, hc, hne⟩ := hwf
+  have hA1 := revAxis_laws sizes tr.main true hm
+  have hA2 := revAxis_laws sizes tr.cond tr.pos hc
+  intro idx hr
+  have hself := self_read hA1 hA2 w hr
+  have hg1 : (coordAxis sizes tr.main).get idx = coord idx tr.main := coordAxis_get _ _
+  have hs : ∀ x y, w ((revAxis sizes tr.cond tr.pos).set ((coordAxis sizes tr.main).set idx x) y)
+      = gat w tr.main tr.cond x (rev (sizes.getD tr.cond 0) tr.pos y) idx := by
+    intro x y; simp only [gat, coordAxis_set]; rfl
+  have hn1 : (coordAxis sizes tr.main).n = sizes.getD tr.main 0 := rfl
+  have hn2 : (revAxis sizes tr.cond tr.pos).n = sizes.getD tr.cond 0 := rfl
+  have hg2 : (revAxis sizes tr.cond tr.pos).get idx
+      = rev (sizes.getD tr.cond 0) tr.pos (coord idx tr.cond) := rfl
+  rw [hg1, hg2] at hself
+  simp only [edgeworthGroup, sqGroup, hn1, hn2, hg1, hg2, hs]
+  simp only [hs] at hself
+  cases h0 : stencilBase g0 (sizes.getD tr.main 0) (coord idx tr.main) with
+  | none => rfl
+  | some i0 =>
+    cases h1 : stencilBase g1 (sizes.getD tr.cond 0)
+        (rev (sizes.getD tr.cond 0) tr.pos (coord idx tr.cond)) with
+    | none => rfl
+    | some j0 =>
+      have ha := (stencilBase_some h0).2
+      have hj := (stencilBase_some h1).2
+      simp only
+      rcases ha with ha | ha <;> rcases hj with hj | hj <;> rw [ha, hj] at hself ⊢ <;>
+        simp [pick4, sqProj, ← hself]
+
+/-- the 2×2 stencil map of `_project_partial_monotonic_dominance` on `(v00, v01, v10, v11)` -/
+def mdomSq (g2 : Bool) (v00 v01 v10 v11 : ℚ) : ℚ × ℚ × ℚ × ℚ :=
+  if g2 then ((triUp v00 v11 v10).1, v01, (triUp v00 v11 v10).2.2, (triUp v00 v11 v10).2.1)
+  else ((triDown v00 v11 v01).1, (triDown v00 v11 v01).2.2, v10, (triDown v00 v11 v01).2.1)
+
+/-- the 2×2 stencil map of `_project_partial_joint_monotonicity` -/
+def jmonoSq (g2 : Bool) (v00 v01 v10 v11 : ℚ) : ℚ × ℚ × ℚ × ℚ :=
+  if g2 then (v00, (triUp v10 v01 v11).2.1, (triUp v10 v01 v11).1, (triUp v10 v01 v11).2.2)
+  else ((triDown v10 v01 v00).2.2, (triDown v10 v01 v00).2.1, (triDown v10 v01 v00).1, v11)
+
+def edgeQ (y00 y01 y10 y11 : ℝ) : Prop := (y10 - y00) - (y11 - y01) ≤ 0
+def mdomQ (g2 : Bool) (y00 y01 y10 y11 : ℝ) : Prop :=
+  if g2 then (y00 + y11) / 2 ≤ y10 else y01 ≤ (y00 + y11) / 2
+def jmonoQ (g2 : Bool) (y00 y01 y10 y11 : ℝ) : Prop :=
+  if g2 then (y10 + y01) / 2 ≤ y11 else y00 ≤ (y10 + y01) / 2
+
+theorem edgeSq_lands (a b c d : ℚ) : edgeQ ((sqProj a b c d).1 : ℝ) ((sqProj a b c d).2.1 : ℝ)
+    ((sqProj a b c d).2.2.1 : ℝ) ((sqProj a b c d).2.2.2 : ℝ) := by
+  have := sqProj_lands a b c d
+  unfold edgeQ; exact_mod_cast this
+
+theorem mdomSq_lands (g2 : Bool) (a b c d : ℚ) : mdomQ g2 ((mdomSq g2 a b c d).1 : ℝ)
+    ((mdomSq g2 a b c d).2.1 : ℝ) ((mdomSq g2 a b c d).2.2.1 : ℝ) ((mdomSq g2 a b c d).2.2.2 : ℝ) := by
+  cases g2
+  · have := triDown_lands a d b
+    simp only [mdomQ, mdomSq, Bool.false_eq_true, if_false]; exact_mod_cast this
+  · have := triUp_lands a d c
+    simp only [mdomQ, mdomSq, if_true]; exact_mod_cast this
+
+theorem jmonoSq_lands (g2 : Bool) (a b c d : ℚ) : jmonoQ g2 ((jmonoSq g2 a b c d).1 : ℝ)
+    ((jmonoSq g2 a b c d).2.1 : ℝ) ((jmonoSq g2 a b c d).2.2.1 : ℝ) ((jmonoSq g2 a b c d).2.2.2 : ℝ) := by
+  cases g2
+  · have := triDown_lands c b a
+    simp only [jmonoQ, jmonoSq, Bool.false_eq_true, if_false]; exact_mod_cast this
+  · have := triUp_lands c b d
+    simp only [jmonoQ, jmonoSq, if_true]; exact_mod_cast this
+
+theorem mdomSq_vi (g2 : Bool) (a b c d : ℚ) (y1 y2 y3 y4 : ℝ) (h : mdomQ g2 y1 y2 y3 y4) :
+    ((a : ℝ) - ((mdomSq g2 a b c d).1 : ℝ)) * (y1 - ((mdomSq g2 a b c d).1 : ℝ))
+      + ((b : ℝ) - ((mdomSq g2 a b c d).2.1 : ℝ)) * (y2 - ((mdomSq g2 a b c d).2.1 : ℝ))
+      + ((c : ℝ) - ((mdomSq g2 a b c d).2.2.1 : ℝ)) * (y3 - ((mdomSq g2 a b c d).2.2.1 : ℝ))
+      + ((d : ℝ) - ((mdomSq g2 a b c d).2.2.2 : ℝ)) * (y4 - ((mdomSq g2 a b c d).2.2.2 : ℝ)) ≤ 0 := by
+  cases g2
+  · simp only [mdomQ, Bool.false_eq_true, if_false] at h
+    have := triDown_vi_real a d b y1 y4 y2 h
+    simp only [mdomSq, Bool.false_eq_true, if_false, sub_self, zero_mul]
+    linarith
+  · simp only [mdomQ, if_true] at h
+    have := triUp_vi_real a d c y1 y4 y3 h
+    simp only [mdomSq, if_true, sub_self, zero_mul]
+    linarith
+
+theorem jmonoSq_vi (g2 : Bool) (a b c d : ℚ) (y1 y2 y3 y4 : ℝ) (h : jmonoQ g2 y1 y2 y3 y4) :
+    ((a : ℝ) - ((jmonoSq g2 a b c d).1 : ℝ)) * (y1 - ((jmonoSq g2 a b c d).1 : ℝ))
+      + ((b : ℝ) - ((jmonoSq g2 a b c d).2.1 : ℝ)) * (y2 - ((jmonoSq g2 a b c d).2.1 : ℝ))
+      + ((c : ℝ) - ((jmonoSq g2 a b c d).2.2.1 : ℝ)) * (y3 - ((jmonoSq g2 a b c d).2.2.1 : ℝ))
+      + ((d : ℝ) - ((jmonoSq g2 a b c d).2.2.2 : ℝ)) * (y4 - ((jmonoSq g2 a b c d).2.2.2 : ℝ)) ≤ 0 := by
+  cases g2
+  · simp only [jmonoQ, Bool.false_eq_true, if_false] at h
+    have := triDown_vi_real c b a y3 y2 y1 h
+    simp only [jmonoSq, Bool.false_eq_true, if_false, sub_self, zero_mul]
+    linarith
+  · simp only [jmonoQ, if_true] at h
+    have := triUp_vi_real c b d y3 y2 y4 h
+    simp only [jmonoSq, if_true, sub_self, zero_mul]
+    linarith
+
+theorem edgeQ_closed : IsClosed {p : ℝ × ℝ × ℝ × ℝ | edgeQ p.1 p.2.1 p.2.2.1 p.2.2.2} := by
+  unfold edgeQ
+  exact isClosed_le (by fun_prop) continuous_const
+theorem mdomQ_closed (g2 : Bool) : IsClosed {p : ℝ × ℝ × ℝ × ℝ | mdomQ g2 p.1 p.2.1 p.2.2.1 p.2.2.2} := by
+  cases g2
+  · simp only [mdomQ, Bool.false_eq_true, if_false]; exact isClosed_le (by fun_prop) (by fun_prop)
+  · simp only [mdomQ, if_true]; exact isClosed_le (by fun_prop) (by fun_prop)
+theorem jmonoQ_closed (g2 : Bool) : IsClosed {p : ℝ × ℝ × ℝ × ℝ | jmonoQ g2 p.1 p.2.1 p.2.2.1 p.2.2.2} := by
+  cases g2
+  · simp only [jmonoQ, Bool.false_eq_true, if_false]; exact isClosed_le (by fun_prop) (by fun_prop)
+  · simp only [jmonoQ, if_true]; exact isClosed_le (by fun_prop) (by fun_prop)
+
+/-- common shape of the monotonic-dominance / joint-monotonicity ties -/
+theorem plainGrid_facts (sizes : List Nat) (d1 d2 : Nat) (h1 : d1 < sizes.length) (h2 : d2 < sizes.length)
+    (w : W) {idx : Idx} (hr : InRange sizes idx) :
+    (∀ x y, w ((coordAxis sizes d2).set ((coordAxis sizes d1).set idx x) y) = gat w d1 d2 x y idx) ∧
+      gat w d1 d2 (coord idx d1) (coord idx d2) idx = w idx := by
+  have hA1 := revAxis_laws sizes d1 true h1
+  have hA2 := revAxis_laws sizes d2 true h2
+  have hs : ∀ x y, w ((coordAxis sizes d2).set ((coordAxis sizes d1).set idx x) y) = gat w d1 d2 x y idx := by
+    intro x y; simp only [gat, coordAxis_set]
+  refine ⟨hs, ?_⟩
+  have := self_read hA1 hA2 w hr
+  rwa [coordAxis_get, coordAxis_get, hs] at this
+
+theorem monoDomGroup_eq_sqGroup (sizes : List Nat) (dom weak g0 g1 : Nat) (g2 : Bool)
+    (h1 : dom < sizes.length) (h2 : weak < sizes.length) (w : W) :
+    AgreeOn sizes (monoDomGroup (sizes.getD dom 0) (sizes.getD weak 0) dom weak g0 g1 g2 w)
+      (sqGroup (coordAxis sizes dom) (coordAxis sizes weak) g0 g1 (mdomSq g2) w) := by
+  intro idx hr
+  obtain ⟨hs, hself⟩ := plainGrid_facts sizes dom weak h1 h2 w hr
+  have hn1 : (coordAxis sizes dom).n = sizes.getD dom 0 := rfl
+  have hn2 : (coordAxis sizes weak).n = sizes.getD weak 0 := rfl
+  simp only [monoDomGroup, sqGroup, hn1, hn2, coordAxis_get, hs]
+  cases h0 : stencilBase g0 (sizes.getD dom 0) (coord idx dom) with
+  | none => rfl
+  | some i0 =>
+    cases h1 : stencilBase g1 (sizes.getD weak 0) (coord idx weak) with
+    | none => rfl
+    | some j0 =>
+      have ha := (stencilBase_some h0).2
+      have hj := (stencilBase_some h1).2
+      simp only
+      cases g2 <;> rcases ha with ha | ha <;> rcases hj with hj | hj <;> rw [ha, hj] at hself ⊢ <;>
+        simp [pick4, mdomSq, triUp, triDown, ← hself]
+
+theorem jointMonoGroup_eq_sqGroup (sizes : List Nat) (d1 d2 g0 g1 : Nat) (g2 : Bool)
+    (h1 : d1 < sizes.length) (h2 : d2 < sizes.length) (w : W) :
+    AgreeOn sizes (jointMonoGroup (sizes.getD d1 0) (sizes.getD d2 0) d1 d2 g0 g1 g2 w)
+      (sqGroup (coordAxis sizes d1) (coordAxis sizes d2) g0 g1 (jmonoSq g2) w) := by
+  intro idx hr
+  obtain ⟨hs, hself⟩ := plainGrid_facts sizes d1 d2 h1 h2 w hr
+  have hn1 : (coordAxis sizes d1).n = sizes.getD d1 0 := rfl
+  have hn2 : (coordAxis sizes d2).n = sizes.getD d2 0 := rfl
+  simp only [jointMonoGroup, sqGroup, hn1, hn2, coordAxis_get, hs]
+  cases h0 : stencilBase g0 (sizes.getD d1 0) (coord idx d1) with
+  | none => rfl
+  | some i0 =>
+    cases h1 : stencilBase g1 (sizes.getD d2 0) (coord idx d2) with
+    | none => rfl
+    | some j0 =>
+      have ha := (stencilBase_some h0).2
+      have hj := (stencilBase_some h1).2
+      simp only
+      cases g2 <;> rcases ha with ha | ha <;> rcases hj with hj | hj <;> rw [ha, hj] at hself ⊢ <;>
+        simp [pick4, jmonoSq, triUp, triDown, ← hself]
+
+/-! ### the whole group schedule: keys, maps, feasibility predicates -/
+
+/-- key of a group of `project_by_dykstra` (range dominance excluded) -/
+inductive GKey
+  | pair (d g : Nat)
+  | edge (tr : Trust) (g0 g1 : Nat)
+  | trap (tr : Trust) (g : Nat)
+  | mdom (p : Nat × Nat) (g0 g1 : Nat) (g2 : Bool)
+  | jmono (p : Nat × Nat) (g0 g1 : Nat) (g2 : Bool)
+
+/-- the group map of a key: literally the model's `_project_partial_*` function -/
+def keyMap (c : DCfg) : GKey → W → W
+  | .pair d g => monoGroup (sz c d) (c.mono.getD d false) (c.unimod.getD d 0) d g
+  | .edge tr g0 g1 => edgeworthGroup (sz c tr.main) (sz c tr.cond) tr g0 g1
+  | .trap tr g => trapezoidGroup (sz c tr.main) (sz c tr.cond) tr g
+  | .mdom p g0 g1 g2 => monoDomGroup (sz c p.1) (sz c p.2) p.1 p.2 g0 g1 g2
+  | .jmono p g0 g1 g2 => jointMonoGroup (sz c p.1) (sz c p.2) p.1 p.2 g0 g1 g2
+
+/-- direction of the pair `(idx, next along d)` for the configuration -/
+def cfgKind (c : DCfg) (d : Nat) (idx : Idx) : PairKind :=
+  pairKind (c.mono.getD d false) (c.unimod.getD d 0) (sz c d) (coord idx d)
+
+/-- the set a key's map projects onto, on real kernels -/
+def keyF (c : DCfg) : GKey → (Idx → ℝ) → Prop
+  | .pair d g => PairF (coordAxis c.sizes d) g (fun idx => QK (cfgKind c d idx))
+  | .edge tr g0 g1 => SqF (coordAxis c.sizes tr.main) (revAxis c.sizes tr.cond tr.pos) g0 g1 edgeQ
+  | .trap tr g => PairF (revAxis c.sizes tr.cond tr.pos) g
+      (fun idx => QK (trapKind (sz c tr.main) (coord idx tr.main)))
+  | .mdom p g0 g1 g2 => SqF (coordAxis c.sizes p.1) (coordAxis c.sizes p.2) g0 g1 (mdomQ g2)
+  | .jmono p g0 g1 g2 => SqF (coordAxis c.sizes p.1) (coordAxis c.sizes p.2) g0 g1 (jmonoQ g2)
+
+def quads : List (Nat × Nat) := [(0,0),(0,1),(1,0),(1,1)]
+def tris : List (Nat × Nat × Bool) :=
+  [(0,0,false),(0,0,true),(0,1,false),(0,1,true),(1,0,false),(1,0,true),(1,1,false),(1,1,true)]
+
+def keysPair (c : DCfg) : List GKey :=
+  (List.range c.sizes.length).flatMap (fun d =>
+    if !(c.mono.getD d false) && c.unimod.getD d 0 == 0 then []
+    else (parities (sz c d)).map (fun g => GKey.pair d g))
+def keysEdge (c : DCfg) : List GKey :=
+  c.edgeworth.flatMap (fun tr =>
+    (quads.filter (fun g => g.1 + 1 < sz c tr.main ∧ g.2 + 1 < sz c tr.cond)).map
+      (fun g => GKey.edge tr g.1 g.2))
+def keysTrap (c : DCfg) : List GKey :=
+  c.trapezoid.flatMap (fun tr => (parities (sz c tr.cond)).map (fun g => GKey.trap tr g))
+def keysMdom (c : DCfg) : List GKey :=
+  c.monoDom.flatMap (fun p =>
+    (tris.filter (fun g => g.1 + 1 < sz c p.1 ∧ g.2.1 + 1 < sz c p.2)).map
+      (fun g => GKey.mdom p g.1 g.2.1 g.2.2))
+def keysJmono (c : DCfg) : List GKey :=
+  c.jointMono.flatMap (fun p =>
+    (tris.filter (fun g => g.1 + 1 < sz c p.1 ∧ g.2.1 + 1 < sz c p.2)).map
+      (fun g => GKey.jmono p g.1 g.2.1 g.2.2))
+
+/-- the keys in the order the loop visits the groups -/
+def keys (c : DCfg) : List GKey := keysPair c ++ keysEdge c ++ keysTrap c ++ keysMdom c ++ keysJmono c
+
+/-- without range dominance, the model's group schedule is the key list mapped through `keyMap` -/
+theorem groups_eq_keys (c : DCfg) (hrd : c.rangeDom = []) : groups c = (keys c).map (keyMap c) := by
+  simp only [groups, keys, keysPair, keysEdge, keysTrap, keysMdom, keysJmono, hrd, List.flatMap_nil,
+    List.append_nil, List.map_append, List.map_flatMap]
+  congr 1
+  · congr 1
+    · congr 1
+      · congr 1
+        · refine List.flatMap_congr (fun d _ => ?_)
+          split_ifs <;> simp [keyMap, parities, Function.comp_def]
+        · refine List.flatMap_congr (fun tr _ => ?_)
+          simp [keyMap, quads, Function.comp_def]
+      · refine List.flatMap_congr (fun tr _ => ?_)
+        simp [keyMap, parities, Function.comp_def]
+    · refine List.flatMap_congr (fun p _ => ?_)
+      simp [keyMap, tris, Function.comp_def]
+  · refine List.flatMap_congr (fun p _ => ?_)
+    simp [keyMap, tris, Function.comp_def]
+
+/-- a key names dimensions of the lattice (and two different ones for the 2-D constraints) -/
+def KeyWF (sizes : List Nat) : GKey → Prop
+  | .pair d _ => d < sizes.length
+  | .edge tr _ _ => TrustWF sizes tr
+  | .trap tr _ => TrustWF sizes tr
+  | .mdom p _ _ _ => p.1 < sizes.length ∧ p.2 < sizes.length ∧ p.1 ≠ p.2
+  | .jmono p _ _ _ => p.1 < sizes.length ∧ p.2 < sizes.length ∧ p.1 ≠ p.2
+
+/-- what `verify_hyperparameters` guarantees of a configuration, and no range dominance -/
+structure CfgWF (c : DCfg) : Prop where
+  edge : ∀ tr ∈ c.edgeworth, TrustWF c.sizes tr
+  trap : ∀ tr ∈ c.trapezoid, TrustWF c.sizes tr
+  mdom : ∀ p ∈ c.monoDom, p.1 < c.sizes.length ∧ p.2 < c.sizes.length ∧ p.1 ≠ p.2
+  jmono : ∀ p ∈ c.jointMono, p.1 < c.sizes.length ∧ p.2 < c.sizes.length ∧ p.1 ≠ p.2
+  rdom : c.rangeDom = []
+
+theorem keys_wf (c : DCfg) (h : CfgWF c) : ∀ k ∈ keys c, KeyWF c.sizes k := by
+  intro k hk
+  simp only [keys, keysPair, keysEdge, keysTrap, keysMdom, keysJmono, List.mem_append,
+    List.mem_flatMap, List.mem_range] at hk
+  rcases hk with (((hk | hk) | hk) | hk) | hk
+  · obtain ⟨d, hd, hk⟩ := hk
+    split_ifs at hk
+    · cases hk
+    · obtain ⟨g, _, rfl⟩ := List.mem_map.mp hk
+      exact hd
+  · obtain ⟨tr, htr, hk⟩ := hk
+    obtain ⟨g, _, rfl⟩ := List.mem_map.mp hk
+    exact h.edge tr htr
+  · obtain ⟨tr, htr, hk⟩ := hk
+    obtain ⟨g, _, rfl⟩ := List.mem_map.mp hk
+    exact h.trap tr htr
+  · obtain ⟨p, hp, hk⟩ := hk
+    obtain ⟨g, _, rfl⟩ := List.mem_map.mp hk
+    exact h.mdom p hp
+  · obtain ⟨p, hp, hk⟩ := hk
+    obtain ⟨g, _, rfl⟩ := List.mem_map.mp hk
+    exact h.jmono p hp
+
+/-- transport of `lands` along a tie between a model map and a generic stencil map -/
+theorem lands_of_tie {sizes : List Nat} {F : (Idx → ℝ) → Prop}
+    (hloc : ∀ y y' : Idx → ℝ, (∀ idx, InRange sizes idx → y idx = y' idx) → F y → F y')
+    {M G : W} (tie : AgreeOn sizes M G) (h : F (fun idx => (G idx : ℝ))) :
+    F (fun idx => (M idx : ℝ)) :=
+  hloc _ _ (fun idx hr => by rw [tie idx hr]) h
+
+theorem vi_of_tie {sizes : List Nat} {w M G : W} {y : Idx → ℝ} (tie : AgreeOn sizes M G)
+    (h : bsum sizes (fun idx => ((w idx : ℝ) - (G idx : ℝ)) * (y idx - (G idx : ℝ))) ≤ 0) :
+    bsum sizes (fun idx => ((w idx : ℝ) - (M idx : ℝ)) * (y idx - (M idx : ℝ))) ≤ 0 :=
+  le_of_eq_of_le (bsum_congr (fun idx hr => by rw [tie idx hr])) h
+
+theorem key_local (c : DCfg) (k : GKey) (hk : KeyWF c.sizes k) (y y' : Idx → ℝ)
+    (h : ∀ idx, InRange c.sizes idx → y idx = y' idx) (hy : keyF c k y) : keyF c k y' := by
+  cases k with
+  | pair d g => exact pairF_local (revAxis_laws _ _ _ hk) y y' h hy
+  | edge tr g0 g1 =>
+    exact sqF_local (revAxis_laws _ _ _ hk.1) (revAxis_laws _ _ _ hk.2.1) (revAxis_indep _ _ hk.2.2) y y' h hy
+  | trap tr g => exact pairF_local (revAxis_laws _ _ _ hk.2.1) y y' h hy
+  | mdom p g0 g1 g2 =>
+    exact sqF_local (revAxis_laws _ _ _ hk.1) (revAxis_laws _ _ _ hk.2.1) (revAxis_indep _ _ hk.2.2) y y' h hy
+  | jmono p g0 g1 g2 =>
+    exact sqF_local (revAxis_laws _ _ _ hk.1) (revAxis_laws _ _ _ hk.2.1) (revAxis_indep _ _ hk.2.2) y y' h hy
+
+theorem key_closed (c : DCfg) (k : GKey) : IsClosed {y : Idx → ℝ | keyF c k y} := by
+  cases k with
+  | pair d g => exact pairF_closed (fun idx => QK_closed _)
+  | edge tr g0 g1 => exact sqF_closed edgeQ_closed
+  | trap tr g => exact pairF_closed (fun idx => QK_closed _)
+  | mdom p g0 g1 g2 => exact sqF_closed (mdomQ_closed g2)
+  | jmono p g0 g1 g2 => exact sqF_closed (jmonoQ_closed g2)
+
+theorem QK_zero (k : PairKind) : QK k 0 0 := by cases k <;> simp [QK]
+
+/-- the zero kernel satisfies every constraint -/
+theorem key_zero (c : DCfg) (k : GKey) : keyF c k (fun _ => 0) := by
+  cases k with
+  | pair d g => intro idx _ _; exact QK_zero _
+  | edge tr g0 g1 => intro idx _ _ _; simp [edgeQ]
+  | trap tr g => intro idx _ _; exact QK_zero _
+  | mdom p g0 g1 g2 => intro idx _ _ _; cases g2 <;> simp [mdomQ]
+  | jmono p g0 g1 g2 => intro idx _ _ _; cases g2 <;> simp [jmonoQ]
+
+/-- **lands, every group kind**: the group map's output satisfies the group's constraints -/
+theorem key_lands (c : DCfg) (k : GKey) (hk : KeyWF c.sizes k) (w : W) :
+    keyF c k (fun idx => (keyMap c k w idx : ℝ)) := by
+  cases k with
+  | pair d g =>
+    have hA := revAxis_laws c.sizes d true hk
+    exact lands_of_tie (key_local c (.pair d g) hk) (monoGroup_eq_pairGroup c.sizes _ _ d g hk w)
+      (pairGroup_lands (g := g) (pp := fun idx => pairK (cfgKind c d idx))
+        (Q := fun idx => QK (cfgKind c d idx)) hA (fun idx a b _ _ => pairK_lands _ a b) w)
+  | edge tr g0 g1 =>
+    exact lands_of_tie (key_local c (.edge tr g0 g1) hk) (edgeworthGroup_eq_sqGroup c.sizes tr g0 g1 hk w)
+      (sqGroup_lands (revAxis_laws _ _ _ hk.1) (revAxis_laws _ _ _ hk.2.1) (revAxis_indep _ _ hk.2.2)
+        edgeSq_lands w)
+  | trap tr g =>
+    have hA := revAxis_laws c.sizes tr.cond tr.pos hk.2.1
+    exact lands_of_tie (key_local c (.trap tr g) hk) (trapezoidGroup_eq_pairGroup c.sizes tr g hk w)
+      (pairGroup_lands (g := g) (pp := fun idx => pairK (trapKind (sz c tr.main) (coord idx tr.main)))
+        (Q := fun idx => QK (trapKind (sz c tr.main) (coord idx tr.main))) hA
+        (fun idx a b _ _ => pairK_lands _ a b) w)
+  | mdom p g0 g1 g2 =>
+    exact lands_of_tie (key_local c (.mdom p g0 g1 g2) hk)
+      (monoDomGroup_eq_sqGroup c.sizes p.1 p.2 g0 g1 g2 hk.1 hk.2.1 w)
+      (sqGroup_lands (revAxis_laws _ _ _ hk.1) (revAxis_laws _ _ _ hk.2.1) (revAxis_indep _ _ hk.2.2)
+        (mdomSq_lands g2) w)
+  | jmono p g0 g1 g2 =>
+    exact lands_of_tie (key_local c (.jmono p g0 g1 g2) hk)
+      (jointMonoGroup_eq_sqGroup c.sizes p.1 p.2 g0 g1 g2 hk.1 hk.2.1 w)
+      (sqGroup_lands (revAxis_laws _ _ _ hk.1) (revAxis_laws _ _ _ hk.2.1) (revAxis_indep _ _ hk.2.2)
+        (jmonoSq_lands g2) w)
+
+/-- **variational inequality on the box, every group kind**: each group map is the Euclidean
+projection onto the set of kernels satisfying the group's constraints -/
+theorem key_vi (c : DCfg) (k : GKey) (hk : KeyWF c.sizes k) (w : W) (y : Idx → ℝ) (hy : keyF c k y) :
+    bsum c.sizes (fun idx => ((w idx : ℝ) - (keyMap c k w idx : ℝ)) * (y idx - (keyMap c k w idx : ℝ))) ≤ 0 := by
+  cases k with
+  | pair d g =>
+    have hA := revAxis_laws c.sizes d true hk
+    exact vi_of_tie (monoGroup_eq_pairGroup c.sizes _ _ d g hk w)
+      (pairGroup_vi (g := g) (pp := fun idx => pairK (cfgKind c d idx))
+        (Q := fun idx => QK (cfgKind c d idx)) hA
+        (fun idx a b y1 y2 _ _ h => pairK_vi _ a b y1 y2 h) w y hy)
+  | edge tr g0 g1 =>
+    exact vi_of_tie (edgeworthGroup_eq_sqGroup c.sizes tr g0 g1 hk w)
+      (sqGroup_vi (g0 := g0) (g1 := g1) (sq := sqProj) (Q := edgeQ)
+        (revAxis_laws _ _ _ hk.1) (revAxis_laws _ _ _ hk.2.1) (revAxis_indep _ _ hk.2.2)
+        (fun a b c d y1 y2 y3 y4 h => sqProj_vi_real a b c d y1 y2 y3 y4 h) w y hy)
+  | trap tr g =>
+    have hA := revAxis_laws c.sizes tr.cond tr.pos hk.2.1
+    exact vi_of_tie (trapezoidGroup_eq_pairGroup c.sizes tr g hk w)
+      (pairGroup_vi (g := g) (pp := fun idx => pairK (trapKind (sz c tr.main) (coord idx tr.main)))
+        (Q := fun idx => QK (trapKind (sz c tr.main) (coord idx tr.main))) hA
+        (fun idx a b y1 y2 _ _ h => pairK_vi _ a b y1 y2 h) w y hy)
+  | mdom p g0 g1 g2 =>
+    exact vi_of_tie (monoDomGroup_eq_sqGroup c.sizes p.1 p.2 g0 g1 g2 hk.1 hk.2.1 w)
+      (sqGroup_vi (g0 := g0) (g1 := g1) (sq := mdomSq g2) (Q := mdomQ g2)
+        (revAxis_laws _ _ _ hk.1) (revAxis_laws _ _ _ hk.2.1) (revAxis_indep _ _ hk.2.2)
+        (mdomSq_vi g2) w y hy)
+  | jmono p g0 g1 g2 =>
+    exact vi_of_tie (jointMonoGroup_eq_sqGroup c.sizes p.1 p.2 g0 g1 g2 hk.1 hk.2.1 w)
+      (sqGroup_vi (g0 := g0) (g1 := g1) (sq := jmonoSq g2) (Q := jmonoQ g2)
+        (revAxis_laws _ _ _ hk.1) (revAxis_laws _ _ _ hk.2.1) (revAxis_indep _ _ hk.2.2)
+        (jmonoSq_vi g2) w y hy)
+
+/-- **C08, convergence clause, every constraint kind except range dominance.** For every
+well-formed configuration (monotonicity, unimodality, Edgeworth and trapezoid trusts, monotonic
+dominance, joint monotonicity — any combination) and every kernel `w`, the iterates of the model of
+`project_by_dykstra` converge on every vertex to the kernel `p` that satisfies the constraints of all
+groups and is the Euclidean-nearest such kernel to `w` (Pythagoras gap ⇒ unique). -/
+theorem dykstra_cfg_converges_keys (c : DCfg) (hwf : CfgWF c) (w : W) :
+    ∃ p : Idx → ℝ, (∀ k ∈ keys c, keyF c k p) ∧
+      (∀ y : Idx → ℝ, (∀ k ∈ keys c, keyF c k y) →
+        bsum c.sizes (fun idx => ((w idx : ℝ) - p idx) ^ 2) + bsum c.sizes (fun idx => (p idx - y idx) ^ 2)
+          ≤ bsum c.sizes (fun idx => ((w idx : ℝ) - y idx) ^ 2)) ∧
+      (∀ idx, InRange c.sizes idx → Tendsto (fun n =>
+        (((dykstraIter (groups c) n (w, (groups c).map (fun _ => fun _ => 0))).1 idx : ℚ) : ℝ))
+          atTop (𝓝 (p idx))) ∧
+      Tendsto (fun n => bsum c.sizes (fun idx =>
+        ((((dykstraIter (groups c) n (w, (groups c).map (fun _ => fun _ => 0))).1 idx : ℚ) : ℝ)
+          - p idx) ^ 2)) atTop (𝓝 0) := by
+  have hkw := keys_wf c hwf
+  have hloc : ∀ k ∈ keys c, Local c.sizes (keyMap c k) := by
+    intro k hk
+    apply groups_local c
+    rw [groups_eq_keys c hwf.rdom]
+    exact List.mem_map.mpr ⟨k, hk, rfl⟩
+  rw [groups_eq_keys c hwf.rdom]
+  exact dykstra_box_converges c.sizes (keys c) (keyMap c) (keyF c) hloc
+    (fun k hk => key_local c k (hkw k hk)) (fun k _ => key_closed c k)
+    (fun k hk w => key_lands c k (hkw k hk) w) (fun k hk w y hy => key_vi c k (hkw k hk) w y hy)
+    ⟨fun _ => 0, fun k _ => key_zero c k⟩ w
+
+/-! ### the constraints in readable form: all adjacent pairs / all 2×2 cells -/
+
+theorem mem_quads_filter {M N : Nat} {g : Nat × Nat} :
+    g ∈ quads.filter (fun g => g.1 + 1 < M ∧ g.2 + 1 < N) ↔ g.1 ∈ parities M ∧ g.2 ∈ parities N := by
+  obtain ⟨a, b⟩ := g
+  simp only [quads, List.mem_filter, List.mem_cons, List.not_mem_nil, or_false, Prod.mk.injEq,
+    decide_eq_true_eq, mem_parities]
+  omega
+
+theorem mem_tris_filter {M N : Nat} {g : Nat × Nat × Bool} :
+    g ∈ tris.filter (fun g => g.1 + 1 < M ∧ g.2.1 + 1 < N) ↔ g.1 ∈ parities M ∧ g.2.1 ∈ parities N := by
+  obtain ⟨a, b, t⟩ := g
+  simp only [tris, List.mem_filter, List.mem_cons, List.not_mem_nil, or_false, Prod.mk.injEq,
+    decide_eq_true_eq, mem_parities]
+  cases t <;> simp <;> omega
+
+theorem mem_keysPair {c : DCfg} {k : GKey} : k ∈ keysPair c ↔ ∃ d g, k = .pair d g ∧
+    d < c.sizes.length ∧ (!(c.mono.getD d false) && c.unimod.getD d 0 == 0) = false ∧
+      g ∈ parities (sz c d) := by
+  simp only [keysPair, List.mem_flatMap, List.mem_range]
+  constructor
+  · rintro ⟨d, hd, h⟩
+    split_ifs at h with hf
+    · cases h
+    · obtain ⟨g, hg, rfl⟩ := List.mem_map.mp h
+      exact ⟨d, g, rfl, hd, by simpa using hf, hg⟩
+  · rintro ⟨d, g, rfl, hd, hf, hg⟩
+    refine ⟨d, hd, ?_⟩
+    rw [if_neg (by simpa using hf)]
+    exact List.mem_map.mpr ⟨g, hg, rfl⟩
+
+theorem mem_keysEdge {c : DCfg} {k : GKey} : k ∈ keysEdge c ↔ ∃ tr g0 g1, k = .edge tr g0 g1 ∧
+    tr ∈ c.edgeworth ∧ g0 ∈ parities (sz c tr.main) ∧ g1 ∈ parities (sz c tr.cond) := by
+  simp only [keysEdge, List.mem_flatMap, List.mem_map]
+  constructor
+  · rintro ⟨tr, htr, g, hg, rfl⟩
+    exact ⟨tr, g.1, g.2, rfl, htr, mem_quads_filter.mp hg⟩
+  · rintro ⟨tr, g0, g1, rfl, htr, h0, h1⟩
+    exact ⟨tr, htr, (g0, g1), mem_quads_filter.mpr ⟨h0, h1⟩, rfl⟩
+
+theorem mem_keysTrap {c : DCfg} {k : GKey} : k ∈ keysTrap c ↔ ∃ tr g, k = .trap tr g ∧
+    tr ∈ c.trapezoid ∧ g ∈ parities (sz c tr.cond) := by
+  simp only [keysTrap, List.mem_flatMap, List.mem_map]
+  constructor
+  · rintro ⟨tr, htr, g, hg, rfl⟩
+    exact ⟨tr, g, rfl, htr, hg⟩
+  · rintro ⟨tr, g, rfl, htr, hg⟩
+    exact ⟨tr, htr, g, hg, rfl⟩
+
+theorem mem_keysMdom {c : DCfg} {k : GKey} : k ∈ keysMdom c ↔ ∃ p g0 g1 g2, k = .mdom p g0 g1 g2 ∧
+    p ∈ c.monoDom ∧ g0 ∈ parities (sz c p.1) ∧ g1 ∈ parities (sz c p.2) := by
+  simp only [keysMdom, List.mem_flatMap, List.mem_map]
+  constructor
+  · rintro ⟨p, hp, g, hg, rfl⟩
+    exact ⟨p, g.1, g.2.1, g.2.2, rfl, hp, mem_tris_filter.mp hg⟩
+  · rintro ⟨p, g0, g1, g2, rfl, hp, h0, h1⟩
+    exact ⟨p, hp, (g0, g1, g2), mem_tris_filter.mpr ⟨h0, h1⟩, rfl⟩
+
+theorem mem_keysJmono {c : DCfg} {k : GKey} : k ∈ keysJmono c ↔ ∃ p g0 g1 g2, k = .jmono p g0 g1 g2 ∧
+    p ∈ c.jointMono ∧ g0 ∈ parities (sz c p.1) ∧ g1 ∈ parities (sz c p.2) := by
+  simp only [keysJmono, List.mem_flatMap, List.mem_map]
+  constructor
+  · rintro ⟨p, hp, g, hg, rfl⟩
+    exact ⟨p, g.1, g.2.1, g.2.2, rfl, hp, mem_tris_filter.mp hg⟩
+  · rintro ⟨p, g0, g1, g2, rfl, hp, h0, h1⟩
+    exact ⟨p, hp, (g0, g1, g2), mem_tris_filter.mpr ⟨h0, h1⟩, rfl⟩
+
+theorem mem_keys (c : DCfg) (k : GKey) : k ∈ keys c ↔
+    match k with
+    | .pair d g => d < c.sizes.length ∧ (!(c.mono.getD d false) && c.unimod.getD d 0 == 0) = false ∧
+        g ∈ parities (sz c d)
+    | .edge tr g0 g1 => tr ∈ c.edgeworth ∧ g0 ∈ parities (sz c tr.main) ∧ g1 ∈ parities (sz c tr.cond)
+    | .trap tr g => tr ∈ c.trapezoid ∧ g ∈ parities (sz c tr.cond)
+    | .mdom p g0 g1 _ => p ∈ c.monoDom ∧ g0 ∈ parities (sz c p.1) ∧ g1 ∈ parities (sz c p.2)
+    | .jmono p g0 g1 _ => p ∈ c.jointMono ∧ g0 ∈ parities (sz c p.1) ∧ g1 ∈ parities (sz c p.2) := by
+  simp only [keys, List.mem_append, mem_keysPair, mem_keysEdge, mem_keysTrap, mem_keysMdom,
+    mem_keysJmono]
+  cases k <;> simp
+
+/-- **feasibility of a real kernel for a configuration** (everything `project_by_dykstra` projects
+onto except range dominance), on the box:
+* every adjacent pair along a dimension has the direction monotonicity / unimodality prescribes;
+* every 2×2 cell of an Edgeworth trust's grid (conditional dimension in list order) satisfies the
+  Edgeworth inequality; the first / last main layer of a trapezoid trust is non-increasing /
+  non-decreasing along the conditional dimension (list order);
+* every 2×2 cell of a monotonic-dominance or joint-monotonicity pair satisfies both triangle
+  inequalities. -/
+structure FeasibleR (c : DCfg) (y : Idx → ℝ) : Prop where
+  pairs : ∀ d, d < c.sizes.length → AllPairs (coordAxis c.sizes d) (fun idx => QK (cfgKind c d idx)) y
+  edge : ∀ tr ∈ c.edgeworth,
+    AllSquares (coordAxis c.sizes tr.main) (revAxis c.sizes tr.cond tr.pos) edgeQ y
+  trap : ∀ tr ∈ c.trapezoid, AllPairs (revAxis c.sizes tr.cond tr.pos)
+    (fun idx => QK (trapKind (sz c tr.main) (coord idx tr.main))) y
+  mdom : ∀ p ∈ c.monoDom, ∀ g2, AllSquares (coordAxis c.sizes p.1) (coordAxis c.sizes p.2) (mdomQ g2) y
+  jmono : ∀ p ∈ c.jointMono, ∀ g2, AllSquares (coordAxis c.sizes p.1) (coordAxis c.sizes p.2) (jmonoQ g2) y
+
+theorem feasibleR_iff_keys (c : DCfg) (y : Idx → ℝ) : FeasibleR c y ↔ ∀ k ∈ keys c, keyF c k y := by
+  constructor
+  · intro hf k hk
+    have hm := (mem_keys c k).mp hk
+    cases k with
+    | pair d g => exact (pairF_all_iff _ _ y).mpr (hf.pairs d hm.1) g hm.2.2
+    | edge tr g0 g1 => exact (sqF_all_iff _ _ _ y).mpr (hf.edge tr hm.1) g0 hm.2.1 g1 hm.2.2
+    | trap tr g => exact (pairF_all_iff _ _ y).mpr (hf.trap tr hm.1) g hm.2
+    | mdom p g0 g1 g2 => exact (sqF_all_iff _ _ _ y).mpr (hf.mdom p hm.1 g2) g0 hm.2.1 g1 hm.2.2
+    | jmono p g0 g1 g2 => exact (sqF_all_iff _ _ _ y).mpr (hf.jmono p hm.1 g2) g0 hm.2.1 g1 hm.2.2
+  · intro h
+    refine ⟨fun d hd => ?_, fun tr htr => ?_, fun tr htr => ?_, fun p hp g2 => ?_, fun p hp g2 => ?_⟩
+    · by_cases hf : (!(c.mono.getD d false) && c.unimod.getD d 0 == 0) = true
+      · intro idx _ _
+        simp only [Bool.and_eq_true, Bool.not_eq_true', beq_iff_eq] at hf
+        simp only [cfgKind, pairKind, hf.1, hf.2, Bool.false_eq_true, if_false, if_true, QK]
+      · exact (pairF_all_iff _ _ y).mp
+          (fun g hg => h (.pair d g) ((mem_keys c _).mpr ⟨hd, by simpa using hf, hg⟩))
+    · exact (sqF_all_iff _ _ _ y).mp
+        (fun g0 h0 g1 h1 => h (.edge tr g0 g1) ((mem_keys c _).mpr ⟨htr, h0, h1⟩))
+    · exact (pairF_all_iff _ _ y).mp (fun g hg => h (.trap tr g) ((mem_keys c _).mpr ⟨htr, hg⟩))
+    · exact (sqF_all_iff _ _ _ y).mp
+        (fun g0 h0 g1 h1 => h (.mdom p g0 g1 g2) ((mem_keys c _).mpr ⟨hp, h0, h1⟩))
+    · exact (sqF_all_iff _ _ _ y).mp
+        (fun g0 h0 g1 h1 => h (.jmono p g0 g1 g2) ((mem_keys c _).mpr ⟨hp, h0, h1⟩))
+
+/-- **C08, convergence clause — main statement.** Every well-formed configuration without range
+dominance, every kernel: the iterates of `project_by_dykstra`'s model converge, vertex by vertex,
+to the feasible kernel nearest to the input (sum of squares over the box; the Pythagoras gap makes
+it the unique nearest one); the sum of squared distances to it tends to 0. -/
+theorem dykstra_cfg_converges (c : DCfg) (hwf : CfgWF c) (w : W) :
+    ∃ p : Idx → ℝ, FeasibleR c p ∧
+      (∀ y : Idx → ℝ, FeasibleR c y →
+        bsum c.sizes (fun idx => ((w idx : ℝ) - p idx) ^ 2) + bsum c.sizes (fun idx => (p idx - y idx) ^ 2)
+          ≤ bsum c.sizes (fun idx => ((w idx : ℝ) - y idx) ^ 2)) ∧
+      (∀ idx, InRange c.sizes idx → Tendsto (fun n =>
+        (((dykstraIter (groups c) n (w, (groups c).map (fun _ => fun _ => 0))).1 idx : ℚ) : ℝ))
+          atTop (𝓝 (p idx))) ∧
+      Tendsto (fun n => bsum c.sizes (fun idx =>
+        ((((dykstraIter (groups c) n (w, (groups c).map (fun _ => fun _ => 0))).1 idx : ℚ) : ℝ)
+          - p idx) ^ 2)) atTop (𝓝 0) := by
+  obtain ⟨p, hp, hnear, hlim, hsq⟩ := dykstra_cfg_converges_keys c hwf w
+  exact ⟨p, (feasibleR_iff_keys c p).mpr hp,
+    fun y hy => hnear y ((feasibleR_iff_keys c y).mp hy), hlim, hsq⟩
+
+/-! ### ties to `FeasibleD` and to the executable loop, all constraint kinds -/
+
+/-- a rational kernel satisfying the configuration's constraints (`FeasibleD`, the predicate of the
+fixpoint theorems) is feasible in the sense of the convergence theorem -/
+theorem feasibleR_of_feasibleD (c : DCfg) (hwf : CfgWF c) (w : W) (hf : FeasibleD c w) :
+    FeasibleR c (fun idx => (w idx : ℝ)) := by
+  rw [feasibleR_iff_keys]
+  intro k hk
+  have hfix : AgreeOn c.sizes (keyMap c k w) w := by
+    apply groups_fix c w hwf.trap hf
+    rw [groups_eq_keys c hwf.rdom]
+    exact List.mem_map.mpr ⟨k, hk, rfl⟩
+  exact key_local c k (keys_wf c hwf k hk) _ _ (fun idx hr => by rw [hfix idx hr])
+    (key_lands c k (keys_wf c hwf k hk) w)
+
+/-- uniform closeness on the box from the sum of squares -/
+theorem uniform_of_bsum {sizes : List Nat} {u : ℕ → Idx → ℝ}
+    (h : Tendsto (fun n => bsum sizes (fun idx => (u n idx) ^ 2)) atTop (𝓝 0)) {ε : ℝ} (hε : 0 < ε) :
+    ∃ n0 : ℕ, ∀ n, n0 ≤ n → ∀ idx, InRange sizes idx → |u n idx| < ε := by
+  have hε' : (0 : ℝ) < ε ^ 2 := by positivity
+  obtain ⟨n0, hn0⟩ := Filter.eventually_atTop.mp ((tendsto_order.mp h).2 _ hε')
+  refine ⟨n0, fun n hn idx hr => ?_⟩
+  have h1 := le_bsum (sizes := sizes) (f := fun idx => (u n idx) ^ 2) (fun _ => sq_nonneg _) hr
+  exact abs_lt_of_sq_lt_sq (lt_of_le_of_lt h1 (hn0 n hn)) hε.le
+
+/-- the executable `project_by_dykstra` computes the function-level loop on the box, for every
+iteration count, whenever its early-return test lets the loop run -/
+theorem projectByDykstraT_agree_iter (c : DCfg) (hact : dykstraActive c = true) (n : Nat) (t : Table) :
+    AgreeOn c.sizes (projectByDykstraT c n t).get
+      (dykstraIter (groups c) n (t.get, (groups c).map (fun _ => fun _ => 0))).1 := by
+  unfold projectByDykstraT
+  split_ifs with h
+  · simp only [Bool.or_eq_true, decide_eq_true_eq, Bool.not_eq_true', hact] at h
+    rcases h with h | h
+    · subst h; exact AgreeOn.refl _ _
+    · cases h
+  · exact projectByDykstraT_agree c n t
+
+/-- **C08, convergence clause on the executable model, every constraint kind except range
+dominance.** -/
+theorem projectByDykstraT_cfg_converges (c : DCfg) (hwf : CfgWF c) (hact : dykstraActive c = true)
+    (t : Table) :
+    ∃ p : Idx → ℝ, FeasibleR c p ∧
+      (∀ y : Idx → ℝ, FeasibleR c y →
+        bsum c.sizes (fun idx => ((t.get idx : ℝ) - p idx) ^ 2) + bsum c.sizes (fun idx => (p idx - y idx) ^ 2)
+          ≤ bsum c.sizes (fun idx => ((t.get idx : ℝ) - y idx) ^ 2)) ∧
+      (∀ idx, InRange c.sizes idx → Tendsto (fun n =>
+        (((projectByDykstraT c n t).get idx : ℚ) : ℝ)) atTop (𝓝 (p idx))) ∧
+      (∀ ε : ℝ, 0 < ε → ∃ n0 : Nat, ∀ n, n0 ≤ n → ∀ idx, InRange c.sizes idx →
+        |(((projectByDykstraT c n t).get idx : ℚ) : ℝ) - p idx| < ε) := by
+  obtain ⟨p, hp, hnear, hlim, hsq⟩ := dykstra_cfg_converges c hwf t.get
+  refine ⟨p, hp, hnear, fun idx hr => ?_, fun ε hε => ?_⟩
+  · refine (hlim idx hr).congr (fun n => ?_)
+    rw [projectByDykstraT_agree_iter c hact n t idx hr]
+  · obtain ⟨n0, h⟩ := uniform_of_bsum hsq hε
+    refine ⟨n0, fun n hn idx hr => ?_⟩
+    rw [projectByDykstraT_agree_iter c hact n t idx hr]
+    exact h n hn idx hr
+
+/-! ### range dominance is not covered: its corner map is not a projection -/
+
+/-- the kernel on the 2×2 lattice with `L[0][1] = 1` and 0 elsewhere -/
+def wRd : W := fun idx => if idx = [0, 1] then 1 else 0
+
+/-- **why range dominance is excluded.** At the corner vertex `(i, j) = (0, N−1)` the constraint of
+`_project_partial_range_dominance` reads `2·L[0][N−1] − L[0][0] − L[M−1][N−1] ≤ 0`; the model's map
+raises `L[0][0]` and `L[M−1][N−1]` and leaves the doubly weighted corner alone. On the 2×2 lattice,
+from `wRd` it returns `(1, 1, 0, 1)`; the zero kernel satisfies the constraint, yet the variational
+inequality `Σ (w − P w)(0 − P w) ≤ 0` fails (the sum is 2): the map is not the Euclidean projection
+onto its constraint set, so the Boyle–Dykstra hypotheses do not hold for this group. -/
+theorem rangeDom_corner_not_projection :
+    (allIdx [2, 2]).map (rangeDomGroup 2 2 0 1 0 1 wRd) = [1, 1, 0, 1] ∧
+      rsum ((allIdx [2, 2]).map (fun idx =>
+        (wRd idx - rangeDomGroup 2 2 0 1 0 1 wRd idx) * (0 - rangeDomGroup 2 2 0 1 0 1 wRd idx))) = 2 := by
+  decide +kernel
+
+/-! ### non-vacuity of the general statement -/
+
+/-- the 3×3 configuration of the fixpoint examples (monotone dimension 0, Edgeworth trust of 0
+conditional on 1) is well-formed and runs the loop -/
+example : CfgWF cEx ∧ dykstraActive cEx = true := by
+  refine ⟨⟨?_, ?_, ?_, ?_, rfl⟩, by decide⟩
+  · intro tr htr
+    have : tr = ⟨0, 1, true⟩ := by simpa [cEx] using htr
+    subst this
+    exact ⟨by decide, by decide, by decide⟩
+  · intro tr htr; simp [cEx] at htr
+  · intro p hp; simp [cEx] at hp
+  · intro p hp; simp [cEx] at hp
 
 end Tfl.C08
